@@ -74,10 +74,20 @@ let open_chunk_limit = 4096
 let open_file_limit = 64
 
 let scratch_root = bytes_of_string "/SCRATCH"
+let scratch_root2 = bytes_of_string "/SCRATCH2/other"
+
+(* the policy probed from the implementation: --policy <pl_min> <pl_max> <reject_foreign_xt 0|1> *)
+let pol =
+  let rec find i = if i + 3 >= Array.length Sys.argv then None
+    else if Sys.argv.(i) = "--policy" then Some (Sys.argv.(i+1), Sys.argv.(i+2), Sys.argv.(i+3)) else find (i + 1) in
+  match find 1 with
+  | Some (a, b, c) -> { pl_min = n_of_string a; pl_max = n_of_string b; reject_foreign_xt = (c = "1") }
+  | None -> default_policy
+let has_arg a = Array.exists (fun x -> x = a) Sys.argv
 
 let show (r : download lres) : string = match r with
-  | LErr EInput -> "ERR:input"
-  | LErr EBencode -> "ERR:bencode"
+  | LErr EInput -> "REJECT"          (* which input-error class / message: not constrained by the property *)
+  | LErr EBencode -> "REJECT"
   | LErr EInternal -> "ERR:internal"
   | LErr EStorage -> "ERR:storage"
   | LFault -> "FAULT"
@@ -96,10 +106,17 @@ let show (r : download lres) : string = match r with
         let root = if d.d_multi then scratch_root @ (byte_tab.(47) :: d.d_name) else scratch_root in
         let pre = List.length scratch_root + 1 in
         let rec drop k l = if k = 0 then l else match l with [] -> [] | _ :: t -> drop (k - 1) t in
+        let root2 = if d.d_multi then scratch_root2 @ (byte_tab.(47) :: d.d_name) else scratch_root2 in
+        let pre2 = List.length scratch_root2 + 1 in
         match open_paths root d with
         | LOk fr ->
             let inodes = List.map (fun (p, isf) -> (if isf then "f:" else "d:") ^ hex_of_bytes p) (inode_list d) in
-            head ^ " | OPEN:ok frozen=" ^ join (List.map (fun p -> hex_of_bytes (drop pre p)) fr) ^ " | FS:ok " ^ join inodes
+            let phase1 = head ^ " | OPEN:ok frozen=" ^ join (List.map (fun p -> hex_of_bytes (drop pre p)) fr) ^ " | FS:ok " ^ join inodes in
+            (* close, set_root_dir(another root), open again: frozen paths are recomputed from the
+               CURRENT root; the same relative tree appears under the new root and nowhere else *)
+            (match open_paths root2 d with
+             | LOk fr2 -> phase1 ^ " | OPEN2:ok frozen=" ^ join (List.map (fun p -> hex_of_bytes (drop pre2 p)) fr2) ^ " | FS2:ok " ^ join inodes
+             | _ -> phase1 ^ " | OPEN2:err")
         | LErr EStorage -> head ^ " | OPEN:err:storage"
         | LErr _ -> head ^ " | OPEN:err:other"
         | LFault -> head ^ " | OPEN:FAULT"
@@ -107,23 +124,26 @@ let show (r : download lres) : string = match r with
 
 (* --cov: instead of results, print the branch tags of the MODEL's magnet parser reached by each
    U case (Model.magnet_branches; ProofsTrace: the traced parser computes the same results) *)
-let cov_mode = Array.length Sys.argv > 1 && Sys.argv.(1) = "--cov"
+let cov_mode = has_arg "--cov"
+
+let () = if has_arg "--policy-ok" then begin
+  print_string (if policy_ok pol then "policy_ok=1\n" else "policy_ok=0\n"); exit 0 end
 
 let () = each_line (fun line ->
   if cov_mode then
     (match split_ws line with
      | ["U"; h] ->
-         let tags = List.sort_uniq compare (List.map int_of_n (magnet_branches (bytes_of_hex h))) in
+         let tags = List.sort_uniq compare (List.map int_of_n (magnet_branches pol.reject_foreign_xt (bytes_of_hex h))) in
          String.concat " " (List.map string_of_int tags)
      | _ -> "-")
   else
   match split_ws line with
   | "T" :: fl :: toks ->
       let (v, _) = parse_tree toks in
-      show (load_tree h_model v (fl = "u"))
+      show (load_tree h_model pol v (fl = "u"))
   | ["B"; h] ->
-      (match load_bytes h_model (bytes_of_hex h) with
+      (match load_bytes h_model pol (bytes_of_hex h) with
        | Some r -> show r
-       | None -> "DECODE:reject")
-  | ["U"; h] -> show (load_uri h_model (bytes_of_hex h))
+       | None -> "REJECT")
+  | ["U"; h] -> show (load_uri h_model pol (bytes_of_hex h))
   | _ -> "BADCASE")
